@@ -47,7 +47,7 @@ Lemma HQ_step g a g' es : HQ g -> act_q a = true -> gstep g a = Some (g', es) ->
 Proof.
   intros H Hok Hstep. destruct a as [s a|s k n r sz|items|h|h i s|h i|h]; cbn in Hstep.
   - destruct (is_request a); [discriminate|]. apply svc_act_hs in Hstep as [E _]. unfold HQ. rewrite E. exact H.
-  - destruct (nth_error (svcs g) s); [|discriminate]. destruct (kind_eqb _ _); [|discriminate].
+  - destruct (nth_error (svcs g) s); [|discriminate]. destruct (_ && _); [|discriminate].
     apply svc_act_hs in Hstep as [E _]. unfold HQ. rewrite E. exact H.
   - inversion Hstep; subst. intros h hd Hn. cbn in Hn.
     destruct (Nat.lt_ge_cases h (length (hs g))) as [L|L].
@@ -348,7 +348,7 @@ Proof.
   - destruct (is_request a) eqn:Hreq; [discriminate|].
     eapply svc_act_GS; eauto. intros p r sz sv E. subst a. discriminate.
   - destruct (nth_error (svcs g) s) as [sv|] eqn:Hs; [|discriminate].
-    destruct (kind_eqb (kd sv) k) eqn:Hk; [|discriminate]. apply kind_eqb_eq in Hk. subst k.
+    destruct (kind_eqb (kd sv) k && rr_pick_ok g s) eqn:Hk; [|discriminate]. apply andb_true_iff in Hk as [Hk _]. apply kind_eqb_eq in Hk. subst k.
     eapply svc_act_GS; eauto. intros p r0 sz0 sv0 E Hs0. inversion E; subst r0. rewrite Hs in Hs0. inversion Hs0; subst sv0. exact Hok.
   - inversion Hstep; subst. exists m. split; [reflexivity|exact G].
   - destruct (nth_error (hs g) h) as [hd|]; [|discriminate].
@@ -364,8 +364,7 @@ Proof.
     apply andb_true_iff in Hg as [_ Htake].
     destruct (svc_act g s _) as [[g1 es1]|] eqn:Hact; [|discriminate]. inversion Hstep; subst g' es; clear Hstep.
     destruct (svc_act_GS g m s _ g1 es1 G Hact) as (m' & R & G1).
-    + intros p r sz sv E Hs. inversion E; subst p r sz. unfold may_take in Htake. rewrite Hs in Htake.
-      apply andb_true_iff in Htake as [_ Hk]. apply kind_eqb_eq in Hk. rewrite Hk.
+    + intros p r sz sv E Hs. inversion E; subst p r sz. pose proof (may_take_kind _ _ _ _ Htake Hs) as Hk. rewrite Hk.
       destruct (H _ _ Hh) as [Hsubs _]. eapply Forall_nth_error in Hsubs; eauto.
     + exists m'. split; [assumption|exact G1].
   - destruct (nth_error (hs g) h) as [hd|]; [|discriminate].
